@@ -41,24 +41,59 @@ func (ic *InjCase) Query(wantModel bool, extra ...string) (smt.Verdict, map[stri
 	if wantModel {
 		vars = ic.Enc.ModelVars()
 	}
-	return ic.Sol.CheckAssuming(extra, vars)
+	v, m := ic.Sol.CheckAssuming(extra, vars)
+	// cross-solver diff (thorough tier): a seeded sample of the queries is
+	// decided again by cvc5 and z3 5.1.0 on the full text; a disagreement is a
+	// broken encoding, never a verdict.
+	if ic.c.Thorough() && v != smt.Unknown {
+		ic.st.mu.Lock()
+		ic.st.queryNo++
+		sample := (ic.st.queryNo+ic.c.Seed)%97 == 0 && ic.st.diffed < 400
+		if sample {
+			ic.st.diffed++
+		}
+		ic.st.mu.Unlock()
+		if sample {
+			text := ic.Enc.Text()
+			for _, t := range extra {
+				text += "(assert " + t + ")\n"
+			}
+			for _, kind := range []string{"cvc5", "z3-new"} {
+				v2 := smt.OneShot(kind, text, 60000)
+				if v2 != smt.Unknown && v2 != v {
+					ic.st.mu.Lock()
+					ic.st.disagree = append(ic.st.disagree, fmt.Sprintf("%s: z3=%s %s=%s", ic.Name(), v, kind, v2))
+					ic.st.mu.Unlock()
+				}
+			}
+		}
+	}
+	return v, m
 }
 
 type injStats struct {
-	mu          sync.Mutex
-	programs    int
-	injectors   int
-	multiThread int
-	threads     int
-	events      int
-	gateCLI     []string
-	gateCompile []string
-	unsupported []string
-	funcs       map[string]bool
-	extractNs   int64
-	confirmed   map[string]string // signature -> "confirmed" / "unconfirmed: …"
-	replays     int
-	replayOK    int
+	mu             sync.Mutex
+	programs       int
+	injectors      int
+	multiThread    int
+	threads        int
+	events         int
+	gateCLI        []string
+	gateCompile    []string
+	unsupported    []string
+	funcs          map[string]bool
+	extractNs      int64
+	validationSeen int
+	validated      int
+	modelInReality int
+	realityInModel int
+	validationFail []string
+	queryNo        int
+	diffed         int
+	disagree       []string
+	confirmed      map[string]string // signature -> "confirmed" / "unconfirmed: …"
+	replays        int
+	replayOK       int
 }
 
 func corpusFor(c *Ctx) []*corpus.Program {
@@ -157,6 +192,10 @@ func forEachInjector(c *Ctx, progs []*corpus.Program, fn func(ic *InjCase)) (*in
 			st.mu.Lock()
 			for f := range eng.FuncsRun {
 				if strings.Contains(f, modPath) {
+					// one entry per generic function, not per instantiation
+					if i := strings.IndexByte(f, '['); i >= 0 {
+						f = f[:i] + "[…]"
+					}
 					st.funcs[f] = true
 				}
 			}
@@ -188,6 +227,10 @@ func forEachInjector(c *Ctx, progs []*corpus.Program, fn func(ic *InjCase)) (*in
 	c.Coverage["functions_interpreted"] = fns
 	c.Coverage["traces_validated_against_impl"] = st.replayOK
 	c.Coverage["replays_run"] = st.replays
+	if c.Thorough() {
+		c.Coverage["cross_solver_queries"] = st.diffed
+		c.Coverage["cross_solver_disagreements"] = len(st.disagree)
+	}
 	c.Coverage["gate_cli_rejections"] = len(st.gateCLI)
 	c.Coverage["gate_compile_failures"] = len(st.gateCompile)
 	if len(st.gateCLI) > 0 {
@@ -195,6 +238,9 @@ func forEachInjector(c *Ctx, progs []*corpus.Program, fn func(ic *InjCase)) (*in
 	}
 	if len(st.gateCompile) > 0 {
 		c.Coverage["gate_compile_failed"] = head(st.gateCompile, 10)
+	}
+	if len(st.disagree) > 0 {
+		return st, fmt.Errorf("cross-solver disagreement (broken encoding): %s", st.disagree[0])
 	}
 	if len(st.unsupported) > 0 {
 		c.Coverage["extraction_unsupported"] = head(st.unsupported, 10)
